@@ -698,6 +698,98 @@ func runC17(c *Collector, r *Rng, thorough bool) {
 			}
 		}
 	}
+	// --- the decision depends on the key's present contents only: the same key object offered again after it was
+	// changed in place gets the verdict a fresh object with those contents gets ---
+	verdictOf := func(err error) string {
+		if err == nil {
+			return "ok"
+		}
+		return "err:" + errClass(err)
+	}
+	for _, cv := range []elliptic.Curve{elliptic.P256(), elliptic.P384(), elliptic.P521()} {
+		for _, a := range []cose.Algorithm{-7, -35, -36} {
+			k, _ := ecdsa.GenerateKey(cv, kr)
+			pub := &ecdsa.PublicKey{Curve: cv, X: new(big.Int).Set(k.X), Y: new(big.Int).Set(k.Y)}
+			_, e0 := cose.NewVerifier(a, pub)
+			steps := []struct {
+				name string
+				mut  func()
+			}{
+				{"y+1 (off curve)", func() { pub.Y = new(big.Int).Add(pub.Y, big.NewInt(1)) }},
+				{"(0,0)", func() { pub.X, pub.Y = big.NewInt(0), big.NewInt(0) }},
+				{"P-224", func() {
+					k2, _ := ecdsa.GenerateKey(elliptic.P224(), kr)
+					pub.Curve, pub.X, pub.Y = elliptic.P224(), k2.X, k2.Y
+				}},
+				{"valid again", func() { pub.Curve, pub.X, pub.Y = cv, new(big.Int).Set(k.X), new(big.Int).Set(k.Y) }},
+			}
+			for _, st := range steps {
+				st.mut()
+				fresh := &ecdsa.PublicKey{Curve: pub.Curve, X: new(big.Int).Set(pub.X), Y: new(big.Int).Set(pub.Y)}
+				_, eSame := cose.NewVerifier(a, pub)
+				_, eFresh := cose.NewVerifier(a, fresh)
+				c.Eval("reoffered-key/"+cv.Params().Name, fmt.Sprint(a, st.name), true)
+				if verdictOf(eSame) != verdictOf(eFresh) {
+					c.Fail("C17/verdict-depends-on-history", fmt.Sprintf("NewVerifier(%v) on a key object accepted earlier (%v) and then changed in place to %s: %v; a fresh object with the same contents: %v", a, e0, st.name, eSame, eFresh), map[string]any{"curve": cv.Params().Name, "alg": int64(a)})
+				}
+			}
+		}
+	}
+	{
+		good, small := rsaKey(2048), rsaKey(1024)
+		pub := &rsa.PublicKey{N: new(big.Int).Set(good.N), E: good.E}
+		priv := *good
+		for _, a := range []cose.Algorithm{-37, -38, -39} {
+			cose.NewVerifier(a, pub)
+			cose.NewSigner(a, &priv)
+		}
+		pub.N = small.N
+		priv = *small
+		for _, a := range []cose.Algorithm{-37, -38, -39} {
+			_, e1 := cose.NewVerifier(a, pub)
+			_, e2 := cose.NewVerifier(a, &rsa.PublicKey{N: small.N, E: small.E})
+			_, e3 := cose.NewSigner(a, &priv)
+			_, e4 := cose.NewSigner(a, small)
+			c.Eval("reoffered-key/rsa", fmt.Sprint(a), true)
+			if verdictOf(e1) != verdictOf(e2) || verdictOf(e3) != verdictOf(e4) {
+				c.Fail("C17/verdict-depends-on-history", fmt.Sprintf("RSA key object accepted earlier and then replaced in place by a 1024-bit key: verifier %v (fresh: %v), signer %v (fresh: %v)", e1, e2, e3, e4), map[string]any{"alg": int64(a)})
+			}
+		}
+	}
+	// --- a crypto.Signer that is not *ecdsa.PrivateKey (HSM / KMS adapter): for every algorithm x curve the library
+	// allows, it is handed the digest of the message under the ALGORITHM's hash, and the result verifies ---
+	for _, cv := range []elliptic.Curve{elliptic.P256(), elliptic.P384(), elliptic.P521()} {
+		k, _ := ecdsa.GenerateKey(cv, kr)
+		for _, a := range []cose.Algorithm{-7, -35, -36} {
+			rec := &recordingSigner{key: k}
+			sg, err := cose.NewSigner(a, rec)
+			if err != nil {
+				continue
+			}
+			msg := r.Bytes(1 + r.Intn(100))
+			sig, serr := sg.Sign(r, msg)
+			c.Eval("opaque-signer-digest/"+cv.Params().Name, fmt.Sprint(a), true)
+			rep := map[string]any{"curve": cv.Params().Name, "alg": int64(a), "msg": hx(msg)}
+			if serr != nil {
+				c.Fail("C17/digest-sign-failed", "Sign through a crypto.Signer failed: "+serr.Error(), rep)
+				continue
+			}
+			want := digestOf(algHash(a), msg)
+			if len(rec.digests) != 1 || !bytes.Equal(rec.digests[0], want) {
+				c.Fail("C17/digest-equivalence", fmt.Sprintf("the crypto.Signer was handed %x, the message digest under the algorithm's hash %v is %x", rec.digests, algHash(a), want), rep)
+			}
+			if vf, err := cose.NewVerifier(a, &k.PublicKey); err == nil {
+				if vf.Verify(msg, sig) != nil {
+					c.Fail("C17/digest-equivalence", "a signature made through a crypto.Signer does not verify with the verifier of the same algorithm and key", rep)
+				}
+				if ds, ok := sg.(cose.DigestSigner); ok {
+					if s2, err := ds.SignDigest(r, want); err != nil || vf.Verify(msg, s2) != nil {
+						c.Fail("C17/digest-equivalence", "SignDigest(H(m)) through a crypto.Signer does not verify as a signature of m", rep)
+					}
+				}
+			}
+		}
+	}
 	// --- digest equivalence ---
 	n := 6
 	if thorough {
@@ -741,4 +833,22 @@ func runC17(c *Collector, r *Rng, thorough bool) {
 			}
 		}
 	}
+}
+
+// recordingSigner: a crypto.Signer wrapping an ECDSA key (so that it is not *ecdsa.PrivateKey) that records what it is asked to sign
+type recordingSigner struct {
+	key     *ecdsa.PrivateKey
+	digests [][]byte
+	hashes  []crypto.Hash
+}
+
+func (s *recordingSigner) Public() crypto.PublicKey { return &s.key.PublicKey }
+func (s *recordingSigner) Sign(rand io.Reader, digest []byte, opts crypto.SignerOpts) ([]byte, error) {
+	s.digests = append(s.digests, append([]byte{}, digest...))
+	h := crypto.Hash(0)
+	if opts != nil {
+		h = opts.HashFunc()
+	}
+	s.hashes = append(s.hashes, h)
+	return s.key.Sign(rand, digest, opts)
 }
